@@ -236,7 +236,7 @@ impl Compiler {
     fn patch_jump(&mut self, offset: usize) -> Result<(), CompilerError> {
         let jump = self.chunk.code.len() - offset - 2;
 
-        if jump > common::JUMP_SIZE_MAX {
+        if jump >= common::JUMP_SIZE_MAX {
             return Err(CompilerError::JumpTooLarge);
         }
 
@@ -1100,7 +1100,7 @@ impl<'a> Parser<'a> {
         self.emit_byte(OpCode::Loop as u8);
 
         let offset = self.chunk().code.len() - loop_start + 2;
-        if offset > common::JUMP_SIZE_MAX {
+        if offset >= common::JUMP_SIZE_MAX {
             self.error("Loop body too large.");
         }
 
@@ -1173,7 +1173,7 @@ impl<'a> Parser<'a> {
 
     fn patch_offset_at(&mut self, pos: usize, offset: usize) {
         let jump = self.chunk().code.len() - offset;
-        if jump > common::JUMP_SIZE_MAX {
+        if jump >= common::JUMP_SIZE_MAX {
             self.error("Too much code in block.");
         }
 
